@@ -39,6 +39,12 @@ CHECKS = {
             'every Thumb-16 word is stepped with failing and passing conditions and the full state diff judged.',
             'Trusted: the 16-entry condition table transcribed in vf/props/c05.py; the short list of Thumb classes that '
             'are UNPREDICTABLE inside IT blocks.', 'DESIGN.md §2 C05'),
+    'C10': ('runtime monitoring: step-boundary range sweep over the whole register file on every decoder path with '
+            'code at the edges of the address space; unique-value API histories audited after every operation against '
+            'a sequential bank model',
+            'Range invariant observed after ~300k real steps (quick) incl. all Thumb-16 words; banking audited over '
+            '~200k API operations with all bank cells re-read after each.',
+            'Trusted: the bank table in vf/props/c10.py (ARM ARM B1.3.2).', 'DESIGN.md §2 C10'),
 }
 
 NOT_APPLICABLE = {}
